@@ -822,6 +822,30 @@ func main() {
 	}
 	ft.WriteString("]\n\n")
 
+	// C08: where the HSMS-SS transport arms / cancels T7, starts / stops the linktest, commits the logical state and
+	// drops the link — the hand model (Model/Responder) places these effects; the table pins their call sites.
+	ctlWant := map[string]bool{}
+	for _, n := range []string{"t.armT7", "t.cancelT7", "t.startLinktest", "t.stopLinktest", "rt.TCPDown", "rt.CommitSelected",
+		"rt.SelectLost", "rt.T7Expired", "rt.TCPUp"} {
+		ctlWant[n] = true
+	}
+	ft.WriteString("/-- (file, enclosing function, callee) for every timer / state-commit / link-drop call in package hsmsss (non-hook files). -/\n")
+	ft.WriteString("def hsmsss_controlSites : List (String × String × String) := [\n")
+	var ctl []callSite
+	for _, cs := range collectCalls(pkgs["hsmsss"], ctlWant) {
+		if !strings.HasPrefix(cs.File, "verif_hooks") {
+			ctl = append(ctl, cs)
+		}
+	}
+	for i, c := range ctl {
+		sep := ","
+		if i == len(ctl)-1 {
+			sep = ""
+		}
+		fmt.Fprintf(&ft, "  (%s, %s, %s)%s\n", leanStr(c.File), leanStr(c.Func), leanStr(c.Callee), sep)
+	}
+	ft.WriteString("]\n\n")
+
 	ft.WriteString("/-- package-level variables of package sml and whether any function body assigns to them. -/\n")
 	ft.WriteString("def sml_packageVars : List (String × Bool) := [\n")
 	names, written := packageVars(pkgs["sml"])
